@@ -56,6 +56,7 @@ type watch struct {
 
 type Machine struct {
 	watches []watch
+	pools   map[*Value][]Value // sync.Pool contents
 	*Program
 	solver *Solver
 	pc     []*Term
@@ -423,6 +424,16 @@ func (m *Machine) initPackage(pkg *ssa.Package) {
 					if fg, ok := fsp.Members[n].(*ssa.Global); ok {
 						*m.globals[og] = *m.globalAddr(fg)
 					}
+				}
+			}
+		}
+	}
+	if pkg.Pkg.Path() == "net/http" {
+		// net/http's initializer is not run; the sentinel handlers panic with must be a distinct non-nil error
+		if ep := m.pkgs["errors"]; ep != nil && ep.Func("New") != nil {
+			for n, msg := range map[string]string{"ErrAbortHandler": "net/http: abort Handler", "ErrServerClosed": "http: Server closed"} {
+				if g, ok := pkg.Members[n].(*ssa.Global); ok {
+					*m.globals[g] = m.callSSA(nil, 0, ep.Func("New"), []Value{ConcStr(msg)}, nil)
 				}
 			}
 		}
